@@ -362,6 +362,6 @@ pub fn spec() -> PropSpec {
         level: "exploration",
         rule: "Five generated families. (a) HasDiscoveries::matches on generated (property expectations, discovered subset, variant) against the literal reading of the variant name. (b) generated graph x strategy x threads x finish_when x target_state_count: if fewer states were evaluated than are reachable, then the finish condition holds for the final discoveries, or every property has a discovery, or state_count >= target (simulation: one of the configured reasons holds after join). (c) target_max_depth 1..6: no visitor path has more states than the limit; single-threaded BFS evaluates every state nearer than the limit. (d) timeouts in child processes: bounded stop on an unbounded model, no effect while unexpired. (e) single-threaded simulation run twice with one seed: identical first trace; recording chooser sees the user's seed first. Non-trivial = the control actually binds (stopped before exhaustion / a state at or beyond the depth limit exists / trace of >= 3 states / partial discovery set); distinct by hash of the case.",
         assumptions: vec!["timing oracles only in the direction OS noise cannot produce (policy in DESIGN.md 2.5)"],
-        subs: vec![Box::new(Matches), Box::new(EarlyStop), Box::new(Depth), Box::new(SeedReplay)],
+        subs: vec![Box::new(Matches), Box::new(EarlyStop), Box::new(Depth), Box::new(SeedReplay), Box::new(crate::props::c12d::Timeouts)],
     }
 }
